@@ -153,6 +153,8 @@ def impl(case):
             dy = mod.func(yt, np.zeros(1, dtype=np.int32), pt, 2, dfdu, dfdp)
             obs["func_run"] = dict(dy=fracs(dy), dfdu=[fracs(r) for r in dfdu], dfdp=[fracs(r) for r in dfdp])
             dy0 = mod.func(yt, np.zeros(1, dtype=np.int32), par, 0, dfdu, dfdp)
+            if case.get("wide"):          # values over 60 orders of magnitude: the vector field is not evaluated at the STPNT point
+                return obs
             reset_pyrates()
             f, args, names, smap = build(case).get_run_func("vfd", step_size=1e-3, file_name="d" + case["id"], backend="default",
                                                             float_precision="float64", vectorize=False, solver="scipy")
@@ -235,7 +237,21 @@ def impl_slots(case):
 # ---------------------------------------------------------------------------------------------- generator
 POOL = [f"p{i}" for i in range(1, 31)] + ["a", "b", "g", "k", "w"]
 
-def gen_case(rng, cid, n=None, compile_=False, inexact=False):
+def wide_value(rng):
+    """a binary64 value as an exact rational string: full 53-bit mantissas over 1e-30 .. 1e30, short decimals of small magnitude
+    (1e-06, 1e-09, 3e-18 ...), values near the smallest normal number and denormals; both signs"""
+    r = rng.random()
+    if r < 0.6:
+        x = float((2 ** 52 + rng.randrange(2 ** 52)) | 1) * 2.0 ** rng.randint(-152, 47)
+    elif r < 0.8:
+        x = float(rng.choice(["1e-06", "1e-09", "3e-18", "4.9e-18", "1e-20", "2.5e-07", "7e-12", "1e-30", "6.02214076e23", "1e30", "123456.789e-15"]))
+    elif r < 0.9:
+        x = float((2 ** 52 + rng.randrange(2 ** 52)) | 1) * 2.0 ** rng.randint(-1074, -1060)          # just above the smallest normal
+    else:
+        x = rng.randint(1, 2 ** 20) * 2.0 ** -1074                                                   # denormal
+    return str(Fr(-x if rng.random() < 0.4 else x))
+
+def gen_case(rng, cid, n=None, compile_=False, inexact=False, wide=False):
     n = rng.choice([0, 1, 2, 3, 4, 8, 9, 10, 11, 12, 14, 15, 16, 20, 25] + list(range(26))) if n is None else n
     ns = rng.choice([1, 1, 2, 2, 3])
     states = ["x", "z", "v"][:ns]
@@ -246,7 +262,7 @@ def gen_case(rng, cid, n=None, compile_=False, inexact=False):
     decl = list(names)
     for s in states:                                                  # state variables anywhere in the declaration
         decl.insert(rng.randrange(len(decl) + 1) if rng.random() < 0.5 else 0, s)
-    val = (lambda: str(Fr(rng.choice([k for k in range(-16, 17) if k]), 8))) if not inexact else \
+    val = (lambda: wide_value(rng)) if wide else (lambda: str(Fr(rng.choice([k for k in range(-16, 17) if k]), 8))) if not inexact else \
           (lambda: rng.choice(["1/10", "3/10", "-7/100", "1/5", "1/10000000", "123456789/1000"]))   # decimal literals that are not binary32 values
     unused = set(rng.sample(names, rng.choice([0, 0, 0, 1, 2]))) if n > 2 else set()
     use = [p for p in names if p not in unused]
@@ -275,9 +291,9 @@ def gen_case(rng, cid, n=None, compile_=False, inexact=False):
         over["NDIM"] = ns + 1
     # some defaults are Python ints (a = 2).  Before repair D107 (a87028c) every such model failed to compile (`integer :: a(1)`,
     # loud RuntimeError from f2py); C18_INT_PARAMS=0 switches the stream off.
-    ints = [p for p in names if os.environ.get("C18_INT_PARAMS", "1") == "1" and not inexact and rng.random() < 0.3]
+    ints = [p for p in names if os.environ.get("C18_INT_PARAMS", "1") == "1" and not inexact and not wide and rng.random() < 0.3]
     pvals = [[p, (str(rng.choice([-3, -2, -1, 1, 2, 3])) if p in ints else val())] for p in names]
-    return dict(id=str(cid), decl=decl, states=[[s, val()] for s in states], params=pvals, int_params=ints, eqs=eqs,
+    return dict(id=str(cid), decl=decl, states=[[s, val()] for s in states], params=pvals, int_params=ints, eqs=eqs, wide=wide,
                 scenarios=scen, scen_as_str=bool(scen and len(scen) == 1 and rng.random() < 0.5), overrides=over, compile=compile_,
                 y_test=[str(Fr(rng.choice([-5, -3, 3, 5, 7]), 16)) for _ in states],
                 par_test=[str(Fr(k + 3, 8)) for k in range(NPARX)])
@@ -559,7 +575,9 @@ def harness_side_(case, o):
             for p in slot:
                 exp[slot[p] - 1] = sum((dterm(t, wrt_p=p) for t in terms if p in t[1]), Fr(0))
             if [Fr(v) for v in o["func_run"]["dfdp"][r]] != exp: bad.append(f"dfdp row {r + 1} values")
-        d = o["default_run"]
+        d = o.get("default_run")
+        if d is None:
+            return bad
         if d["state_order"] != [s for s, _ in case["states"]]: bad.append(f"state order of the default backend {d['state_order']}")
         if d["dy"] != d["dy_auto_at_stpnt"]: bad.append("exported vector field at STPNT parameters differs from the default backend's")
     return bad
@@ -774,6 +792,9 @@ def check(ctx):
         k = len(cases)                                           # nodes of three operators with an algebraic-only operator in the middle
         n_chain, n_chain_comp = (max(1, int(300 * scale)), max(1, int(40 * scale))) if thorough else (24, 2)
         cases += [gen_chain(ctx.rng, k + i, compile_=i < n_chain_comp, big=i % 4 == 3) for i in range(n_chain)]
+        k = len(cases)      # STPNT literal contract: values of all magnitudes with full mantissas; the literal must denote the same binary64
+        n_wide, n_wide_comp = (max(1, int(150 * scale)), max(1, int(15 * scale))) if thorough else (10, 1)
+        cases += [gen_case(ctx.rng, k + i, n=ctx.rng.choice([2, 3, 5, 8, 11]), compile_=i < n_wide_comp, wide=True) for i in range(n_wide)]
         k = len(cases)                                           # boundary / integral constraints with constraint-only parameters
         n_bvp, n_bvp_comp = (max(1, int(200 * scale)), max(1, int(20 * scale))) if thorough else (14, 1)
         cases += [gen_bvp(ctx.rng, k + i, compile_=i < n_bvp_comp) for i in range(n_bvp)]
@@ -851,7 +872,7 @@ def check(ctx):
                 compiled=sum(1 for c in cases if c["compile"]), with_unused_parameters=sum(1 for c in cases if len(set(used_params(c))) < len(c["params"])),
                 scenario_sets=sorted({str(c["scenarios"]) for c in cases}), with_overrides=sum(1 for c in cases if c["overrides"]),
                 guard_violating=len(f32_false), e2_validation_calls=len(e2_cases), three_operator_nodes=sum(1 for c in cases if c.get("ops")),
-                two_node_circuits=sum(1 for c in cases if c.get("net")), with_bvp_constraints=sum(1 for c in cases if c.get("bvp")))
+                two_node_circuits=sum(1 for c in cases if c.get("net")), wide_values=sum(1 for c in cases if c.get("wide")), with_bvp_constraints=sum(1 for c in cases if c.get("bvp")))
     write_evidence(ctx, evaluations=len(cases) + len(e2_cases), distinct_nontrivial=len(nt),
                    rule="scalar models with 0-25 parameters (dyadic values, polynomial right-hand sides): (a) one operator, 1-3 state variables, random declaration "
                         "order (state variables interleaved), shuffled order of first use, unused parameters; (b) nodes of three operators src -> alg -> dyn where alg is "
@@ -859,7 +880,9 @@ def check(ctx):
                         "order, variables in declaration order within each); (c) circuits of two nodes with weighted edges A->B (and B->A): the edge weights are parameters "
                         "(declaration order = per node in circuit order: weight of its incoming edge, then its operator's variables); (d) one-operator models with "
                         "boundary_conditions= / integral_constraints= whose par_<name> tokens name a parameter that is unused in the equations and declared before a "
-                        "vector-field parameter (it gets the slot behind the vector-field parameters); scenario selections and constant overrides; "
+                        "vector-field parameter (it gets the slot behind the vector-field parameters); (e) parameter and initial values over 1e-30..1e30 with full 53-bit mantissas, "
+                        "short decimals of small magnitude, values near the smallest normal number and denormals, both signs: the STPNT literal must denote exactly "
+                        "the model's binary64 (parsed back and compared as exact rationals inside Coq; compiled stpnt output compared bit-exactly); scenario selections and constant overrides; "
                         "non-trivial = at least 10 parameters are used (slots cross the reserved range) or the order of first use differs from the "
                         "declaration order; distinct = distinct canonical JSON",
                    samples=[dict(equations=eq_strings(c), decl=c["decl"], scenarios=c["scenarios"], overrides=c["overrides"]) for c in cases[1:3]],
